@@ -55,6 +55,7 @@ def worker(inner_defs, groups, extra):
             root = len(env.defs)
             if "layout" in checks:
                 check_layout(env, mod, nodes, g, res)
+                check_layout_multifile(env, g, work, res)
             for vec in g["vectors"]:
                 res["n_vec"] += 1
                 check_vector(env, mod, root, vec, g, checks, res)
@@ -253,6 +254,62 @@ def check_layout(env, mod, nodes, g, res):
         if want["kind"] == 0 and cls._SIZE != want["size"]:
             _fail(res, "layout", env, g, None, "python _SIZE of fixed %s is %r, rules give %d"
                   % (name, cls._SIZE, want["size"]), type=name)
+
+
+def check_layout_multifile(env, g, work, res):
+    """C04: the same definitions spread over a chain of included files.  The
+    layout of a type does not depend on which file declares it, nor on how many
+    times prophyc walks over an included file's nodes (once per includer)."""
+    from . import compleg as CL
+    lay = g["lay"]
+    n = len(env.defs)
+    if n < 2:
+        return
+    cuts = sorted(set([max(1, n // 3), max(1, (2 * n) // 3)]))
+    bounds = [0] + cuts + [n]
+    sub = tempfile.mkdtemp(prefix="mf-", dir=work)
+    files = []
+    for k in range(len(bounds) - 1):
+        idx = range(bounds[k] + 1, bounds[k + 1] + 1)
+        if not len(idx):
+            continue
+        stem = "f%d" % len(files)
+        # (a file sees the definitions of the files it includes directly, not those of their includes)
+        text = "".join('#include "%s.prophy"\n' % x for x in files) + env.render(idx)
+        with open(os.path.join(sub, stem + ".prophy"), "w") as f:
+            f.write(text)
+        files.append(stem)
+    out = os.path.join(sub, "out")
+    os.mkdir(out)
+    status, nodes, _ = CL.run_main([os.path.join(sub, files[-1] + ".prophy"), "-I", sub, "--python_out", out])
+    res["n_checked"]["layout_multifile"] = res["n_checked"].get("layout_multifile", 0) + 1
+    if status != "ok":
+        _fail(res, "layout", env, g, None, "the schema spread over %d included files is not compiled: %s" % (len(files), nodes))
+        return
+    by_name = {}
+
+    def flat(ns):
+        for x in ns:
+            if type(x).__name__ == "Include":
+                flat(x.members)
+            else:
+                by_name[x.name] = x
+    flat(nodes[files[-1]])
+    for i in range(1, n + 1):
+        d = env.d(i)
+        if d["k"] not in ("struct", "union"):
+            continue
+        want, name = lay[i - 1], env.name(i)
+        node = by_name.get(name)
+        if node is None:
+            _fail(res, "layout", env, g, None, "type %s missing from prophyc's model of the multi-file schema" % name)
+            continue
+        got = (node.alignment, node.kind, node.byte_size if want["kind"] == 0 else None)
+        exp = (want["align"], want["kind"], want["size"] if want["kind"] == 0 else None)
+        if got != exp:
+            _fail(res, "layout", env, g, None, "with the definitions spread over %d included files prophyc's model gives %s "
+                  "(alignment, stiffness, fixed size) = %r, layout rules give %r" % (len(files), name, got, exp), type=name)
+    shutil.rmtree(sub, ignore_errors=True)
 
 
 # ---------------------------------------------------------------------------
